@@ -191,7 +191,8 @@ PROPS = {
         nt_floor=0.2,
     ),
     "C16": dict(
-        stages=[dict(test="TestC16", pkg="c16", quick=(16, 18), thorough=(16, 2000), timeout=dict(quick=900, thorough=3400))],
+        stages=[dict(test="TestC16", pkg="c16", quick=(16, 18), thorough=(16, 2000), timeout=dict(quick=900, thorough=3400)),
+                dict(test="TestC16Liquid", pkg="c16", quick=(4, 40), thorough=(8, 3000), timeout=dict(quick=900, thorough=3400))],
         rule="case = 2-4 accounts, 2-3 rate-1 validators (in half of the cases the smallest one starts Unbonded outside the active set and may swap places with another one), genesis export/import round trips, genesis AllowedDenoms in {[uband],[uband,uatom],[],[uatom]} (governance may later set any of these or [uband,uband], a list naming a denom twice, which must either be refused or count the denom once), and 20-60 late-bound ops "
              "(stake/unstake multi-denom, delegate/undelegate/redelegate/full removal, lock updates from vaults feeds (real MsgVote) / feedsx / tunnel / a "
              "(keeper level), vault deactivation, allowed-denom change through gov, re-locks relative to the vault's old lock after such a change: old-1/old/old+1/mid/power+1) with amounts at lock-1/lock/lock+1, 0, 2^63, 2^64-1; non-trivial = "
